@@ -727,7 +727,8 @@ class PythonTypesBackend(CodeBackend):
                 field_name = fmt_var(field.name, check_reserved=True)
                 recursive_processors = list(self._generate_custom_annotation_processors(
                     ns, field.data_type, field.custom_annotations))
-                recursive_processors = sorted(recursive_processors, key=lambda x: x[0].name)
+                recursive_processors = sorted(
+                    recursive_processors, key=lambda x: (x[0].name, x[0].namespace.name))
                 for annotation_type, processor in recursive_processors:
                     annotation_class = class_name_for_annotation_type(annotation_type, ns)
                     self.emit('if annotation_type is {}:'.format(annotation_class))
@@ -1011,7 +1012,8 @@ class PythonTypesBackend(CodeBackend):
                 if len(recursive_processors) == 0:
                     continue
 
-                recursive_processors = sorted(recursive_processors, key=lambda x: x[0].name)
+                recursive_processors = sorted(
+                    recursive_processors, key=lambda x: (x[0].name, x[0].namespace.name))
 
                 field_name = fmt_func(field.name)
                 self.emit('if self.is_{}():'.format(field_name))
